@@ -71,7 +71,8 @@ theorem lvl_pr : ∀ s : Schema, wf s = true → dense s = true →
         simp only [Bool.and_eq_true, List.isEmpty_iff] at h
         rw [resolve_joined, resolve_joined, h.2]
         exact lvlEq_nocfl _ _ _ _ _ _ _
-      · exact LvlEq.refl _
+      · rw [resolve_joined, resolve_joined]
+        exact lvlEq_nocfl _ _ _ _ _ _ _
     | _ => simp [OkP] at hok
   · intro nm o fields hnd hsome ih u e hok hst
     cases e with
